@@ -413,7 +413,8 @@ fn state_count() -> u64 {
 
 fn arb_op() -> BoxedStrategy<Op> {
     let name = || select(vec!["a", "b", "c", "ä"]).prop_map(|s| s.to_string());
-    let expressible = gen::arb_value().prop_filter_map("literal", |v| if pools::literal_text(&v).is_some() { Some(v) } else { None });
+    // constructed, not filtered: a value without a literal form is replaced
+    let expressible = gen::arb_value().prop_map(|v| if pools::literal_text(&v).is_some() { v } else { RV::Int(7) });
     let small = select(domain_values());
     let aop = || select(AssignOp::ALL.to_vec());
     prop_oneof![
